@@ -402,7 +402,11 @@ func (x *inst) Do(t int, op sim.Op) sim.Rec {
 	return r
 }
 
-func clampOp(op sim.Op) sim.Op {
+func clampOp(op sim.Op) sim.Op { return clampOpN(op, nKeys) }
+
+// clampOpN, encN, dec and step do not read the global nKeys: porcupine's checker goroutines may
+// still be winding down after a timed-out check when the next case is being built.
+func clampOpN(op sim.Op, nKeys int) sim.Op {
 	op.K = ((op.K % nKeys) + nKeys) % nKeys
 	if len(op.Ks) > 0 {
 		ks := make([]int, len(op.Ks))
@@ -578,7 +582,7 @@ func r2(mask int) int {
 }
 
 // model state: 2 bytes per key, 0xFFFF = absent
-func enc(m map[int]int) string {
+func encN(m map[int]int, nKeys int) string {
 	b := make([]byte, 2*nKeys)
 	for k := 0; k < nKeys; k++ {
 		v, ok := m[k]
@@ -592,7 +596,7 @@ func enc(m map[int]int) string {
 
 func dec(s string) map[int]int {
 	m := map[int]int{}
-	for k := 0; k < nKeys; k++ {
+	for k := 0; k < len(s)/2; k++ {
 		v := int(s[2*k])<<8 | int(s[2*k+1])
 		if v != 0xFFFF {
 			m[k] = v
@@ -629,7 +633,8 @@ func eqInts(a, b []int) bool {
 
 func step(state, input, output interface{}) (bool, interface{}) {
 	s := state.(string)
-	op := clampOp(input.(kvIn).op)
+	nk := len(s) / 2
+	op := clampOpN(input.(kvIn).op, nk)
 	r := output.(kvOut).r
 	m := dec(s)
 	switch op.Op {
@@ -646,7 +651,7 @@ func step(state, input, output interface{}) (bool, interface{}) {
 		return len(m) == r.V, s
 	case "Set":
 		m[op.K] = op.V
-		return true, enc(m)
+		return true, encN(m, nk)
 	case "SetNx":
 		_, ok := m[op.K]
 		if ok == r.OK {
@@ -655,7 +660,7 @@ func step(state, input, output interface{}) (bool, interface{}) {
 		if !ok {
 			m[op.K] = op.V
 		}
-		return true, enc(m)
+		return true, encN(m, nk)
 	case "SetX":
 		_, ok := m[op.K]
 		if ok != r.OK {
@@ -664,14 +669,14 @@ func step(state, input, output interface{}) (bool, interface{}) {
 		if ok {
 			m[op.K] = op.V
 		}
-		return true, enc(m)
+		return true, encN(m, nk)
 	case "Delete":
 		for _, k := range op.Ks {
 			delete(m, k)
 		}
-		return true, enc(m)
+		return true, encN(m, nk)
 	case "Clear":
-		return true, enc(map[int]int{})
+		return true, encN(map[int]int{}, nk)
 	case "Keys":
 		var ks []int
 		for k := range m {
@@ -724,10 +729,10 @@ func step(state, input, output interface{}) (bool, interface{}) {
 			delete(m, op.Ks[0])
 			m[op.Ks[1]] = v
 		}
-		return true, enc(m)
+		return true, encN(m, nk)
 	case "MapSetLen":
 		m[op.K] = op.V
-		return len(m) == r.V, enc(m)
+		return len(m) == r.V, encN(m, nk)
 	}
 	return false, s
 }
@@ -796,7 +801,8 @@ func check(run *enga.Run) *sim.Violation {
 	fin.Ks, fin.Vs = x.m.Final(nKeys)
 	ops = append(ops, porcupine.Operation{ClientId: len(c.Programs), Call: maxRet + 1, Return: maxRet + 2, Input: kvIn{sim.Op{Op: "Final"}}, Output: kvOut{fin}})
 	if len(ops) <= 60 {
-		model := porcupine.Model{Init: func() interface{} { return enc(x.init) }, Step: step}
+		nk := nKeys
+		model := porcupine.Model{Init: func() interface{} { return encN(x.init, nk) }, Step: step}
 		switch enga.CheckLin(model, ops) {
 		case porcupine.Ok:
 			run.Out.PorcOK++
